@@ -524,6 +524,13 @@ static void check_skipper(cfg_t *ctx, int act_kind, int act_state, struct pstate
 	const int done_state = nested ? 15 : 0;
 
 	(void)ctx;
+#if defined(CHK_C15) && !defined(CHK_C12) && PSTATE >= 10
+	if (T == CFGT_COMMENT) { /* comments are transparent inside an undeclared item as well */
+		V_ASSERT(act_kind == X_CONT && act_state == PSTATE && *ps->ignore == pre_ignore, "[C15] a comment token inside an undeclared item is skipped");
+		V_ASSERT(n_err == 0, "[C15] a comment inside an undeclared item produces no diagnostic");
+		assert_store_unchanged("comment in skipper");
+	}
+#endif
 #ifdef CHK_C12
 #if PSTATE >= 10
 	/* whatever happens, skipping touches no declared option */
